@@ -161,7 +161,10 @@ class Sim:
 
     # ------------------------------------------------------------------ peer values (pure functions of request data)
     @staticmethod
-    def rc_value(key, evaluatable_data):
+    def rc_value(key, evaluatable_data, context=None):
+        scope = getattr(context, "scope", None)
+        if scope in ("FULFILLED", "UNFULFILLED", "UNKNOWN"):
+            return ConditionFulfilledValue(scope)  # an evaluation context handed in by the caller decides
         try:
             return ConditionFulfilledValue(evaluatable_data.body["requirement_constraints"][key])
         except KeyError as key_error:
@@ -202,13 +205,13 @@ def _make_rc_evaluator(sim, keys, sync_keys):
 
             def method(self, evaluatable_data, context, _key=key):  # pylint:disable=unused-argument
                 sim.touch("rc", _key)
-                return sim.rc_value(_key, evaluatable_data)
+                return sim.rc_value(_key, evaluatable_data, context)
 
         else:
 
             async def method(self, evaluatable_data, context, _key=key):  # pylint:disable=unused-argument
                 await sim.pause("rc", _key)
-                return sim.rc_value(_key, evaluatable_data)
+                return sim.rc_value(_key, evaluatable_data, context)
 
         namespace[f"evaluate_{key}"] = method
     return type("SimRcEvaluator", (RcEvaluator,), namespace)()
